@@ -254,8 +254,13 @@ def make_cases(gen, rng, n, focus):
         prompt = rng.choice(["absent", "absent", "declines", "accepts"])
         op = {"t": t, "force": force, "relink": relink, "prompt": prompt}
         # (the store class by a hash of the id: its parity is tied to `state`, which follows i % 4)
-        cases.append({"id": i, "link": link, "cls": ["local", "generic"][zlib.crc32(b"cls%d" % i) % 2], "state": i % 4 != 3, "ro": i % 5 == 4,
-                      "alg": "md5-dos2unix" if zlib.crc32(b"alg%d" % i) % 6 == 0 else "md5",    # a sixth on a cache of the legacy algorithm
+        alg = "md5-dos2unix" if zlib.crc32(b"alg%d" % i) % 6 == 0 else "md5"      # a sixth on a cache of the legacy algorithm
+        if alg != "md5" and listing is not None:
+            dirobjs = [listing]       # (that staging puts the workspace's directory object into the cache: the cache starts with it)
+        # (not through a read-only handle: for an algorithm other than md5 even the dry-run staging of the workspace adds
+        # its directory object to the cache - _build_external_tree_info - and a read-only handle refuses that: named behaviour)
+        cases.append({"id": i, "link": link, "cls": ["local", "generic"][zlib.crc32(b"cls%d" % i) % 2], "state": i % 4 != 3,
+                      "ro": i % 5 == 4 and alg == "md5", "alg": alg,
                       "init": {"ws": ws, "cache": cache, "dirobjs": dirobjs}, "ops": [op]})
     return cases
 
